@@ -117,9 +117,9 @@ def handlePathRes (op : String) (j : Json) : Option (Except String Json) :=
   | "pathres_realpath" => some do
     let fs ← fsOfJson (← j.getObjVal? "fs")
     let p ← getStr j "p"
-    let one := fun (r : Option Segs) => match r with
-      | some r => absStr r
-      | none => exc "RuntimeError"
+    let one := fun (r : Except Err Segs) => match r with
+      | .ok r => absStr r
+      | .error e => exc (errName e)
     pure (Json.mkObj [("spec", one (fs.resolve (parsePath p))), ("py312", one (fs.py312Resolve (parsePath p)))])
   | "pathres_resolve_item" => some do
     let fs ← fsOfJson (← j.getObjVal? "fs")
